@@ -12,11 +12,11 @@ for d in "$@"; do
     out=/tmp/vs2_${kind}_${prop}${x}.json
     [ -f $out ] && continue
     echo "verifying $kind $prop $x"
-    if [ "$kind" = "r2b" ] || [ "$kind" = "r3b" ] || [ "$kind" = "r4b" ] || [ "$kind" = "r5b" ] || [ "$kind" = "r6b" ] || [ "$kind" = "r7b" ]; then
-      blab=b2; [ "$kind" = "r4b" ] && blab=b4; [ "$kind" = "r5b" ] && blab=b5; [ "$kind" = "r6b" ] && blab=b6; [ "$kind" = "r7b" ] && blab=b7
+    if [ "$kind" = "r2b" ] || [ "$kind" = "r3b" ] || [ "$kind" = "r4b" ] || [ "$kind" = "r5b" ] || [ "$kind" = "r6b" ] || [ "$kind" = "r7b" ] || [ "$kind" = "r8b" ]; then
+      blab=b2; [ "$kind" = "r4b" ] && blab=b4; [ "$kind" = "r5b" ] && blab=b5; [ "$kind" = "r6b" ] && blab=b6; [ "$kind" = "r7b" ] && blab=b7; [ "$kind" = "r8b" ] && blab=b8
       ( /venv/bin/python tools/verify_seed.py $prop ${blab}${x} $d/patch_$X.diff $d/demo_$X.py $d/notes_$X.md --benign > $out 2>&1 ) &
     else
-      lab=r2; [ "$kind" = "r3h" ] && lab=r3; [ "$kind" = "r4h" ] && lab=r4; [ "$kind" = "r5h" ] && lab=r5; [ "$kind" = "r6h" ] && lab=r6; [ "$kind" = "r7h" ] && lab=r7
+      lab=r2; [ "$kind" = "r3h" ] && lab=r3; [ "$kind" = "r4h" ] && lab=r4; [ "$kind" = "r5h" ] && lab=r5; [ "$kind" = "r6h" ] && lab=r6; [ "$kind" = "r7h" ] && lab=r7; [ "$kind" = "r8h" ] && lab=r8
       ( /venv/bin/python tools/verify_seed.py $prop ${lab}${x} $d/patch_$X.diff $d/demo_$X.py $d/notes_$X.md > $out 2>&1 ) &
     fi
     while [ $(jobs -r | wc -l) -ge 5 ]; do sleep 2; done
